@@ -331,7 +331,7 @@ theorem ghost_append : ∀ (evs : List Ev) {y y1 : Sys} (evs' : List Ev), run y 
     simp only [List.cons_append, ghost, hj]
     rw [ih evs' hr, List.append_assoc]
 
-theorem run_append {y y1 y2 : Sys} : ∀ {evs : List Ev} {evs' : List Ev}, run y evs = .ok y1 →
+theorem run_append7 {y y1 y2 : Sys} : ∀ {evs : List Ev} {evs' : List Ev}, run y evs = .ok y1 →
     run y1 evs' = .ok y2 → run y (evs ++ evs') = .ok y2 := by
   intro evs
   induction evs generalizing y with
